@@ -99,6 +99,9 @@ def _strategy(draw):
             spec["vs_only"] = True
     if draw(st.integers(0, 5)) == 0:
         spec["stale_atomtype"] = draw(st.sampled_from([a["name"] for a in spec["atomtypes"]]))
+    if draw(st.integers(0, 3)) == 0:
+        spec["include_layout"] = True
+        spec["primed"] = draw(st.booleans())
     edge = gc.dilute_box(spec)
     opts = {}
     box_kind = draw(st.sampled_from(["box", "box", "rect", "dens"]))
@@ -252,6 +255,8 @@ def check(spec, ctx):
     if len(got_box) > 3 and any(abs(v) > 1e-9 for v in got_box[3:]):
         raise Violation("box:triclinic_terms", f"{got_box}")
     ctx.label("box_from_" + source)
+    if spec.get("include_layout"):
+        ctx.label("molecule_types_in_an_include" + ("_read_before_with_other_content" if spec.get("primed") else ""))
     if spec.get("coords") and spec["coords"].get("format") == "pdb":
         ctx.label("pdb_start_structure" + ("" if spec["coords"].get("cryst", True) else "_without_cell"))
     used = [n for n, _ in spec["molecules"]]
